@@ -1,11 +1,77 @@
 //! The six ciphersuites seen through one trait, plus per-suite *independent* pieces
 //! (challenge hash typed from the RFC / BIP, external verifiers).
 
-use frost_core::{Ciphersuite, Field, Group};
+use std::collections::BTreeMap;
+
+use frost_core::keys::dkg::{round1 as d1, round2 as d2};
+use frost_core::keys::repairable::{Delta, Sigma};
+use frost_core::keys::{IdentifierList, KeyPackage, PublicKeyPackage, SecretShare, SigningShare};
+use frost_core::round1::{SigningCommitments, SigningNonces};
+use frost_core::round2::SignatureShare;
+use frost_core::{Ciphersuite, Error, Field, Group, Identifier, Signature, SigningKey, SigningPackage};
 use frost_rerandomized::RandomizedCiphersuite;
 use sha2::{Digest, Sha256, Sha512};
 
 use crate::alg::*;
+use crate::rng::TraceRng;
+
+pub type IdMap<C, T> = BTreeMap<Identifier<C>, T>;
+
+macro_rules! api_impl {
+    ($k:ident) => {
+        fn api_generate_with_dealer(n: u16, t: u16, ids: IdentifierList<Self>, rng: &mut TraceRng) -> Result<(IdMap<Self, SecretShare<Self>>, PublicKeyPackage<Self>), Error<Self>> {
+            $k::keys::generate_with_dealer(n, t, ids, rng)
+        }
+        fn api_split(key: &SigningKey<Self>, n: u16, t: u16, ids: IdentifierList<Self>, rng: &mut TraceRng) -> Result<(IdMap<Self, SecretShare<Self>>, PublicKeyPackage<Self>), Error<Self>> {
+            $k::keys::split(key, n, t, ids, rng)
+        }
+        fn api_reconstruct(kps: &[KeyPackage<Self>]) -> Result<SigningKey<Self>, Error<Self>> {
+            $k::keys::reconstruct(kps)
+        }
+        fn api_dkg_part1(id: Identifier<Self>, n: u16, t: u16, rng: &mut TraceRng) -> Result<(d1::SecretPackage<Self>, d1::Package<Self>), Error<Self>> {
+            $k::keys::dkg::part1(id, n, t, rng)
+        }
+        fn api_dkg_part2(sec: d1::SecretPackage<Self>, r1: &IdMap<Self, d1::Package<Self>>) -> Result<(d2::SecretPackage<Self>, IdMap<Self, d2::Package<Self>>), Error<Self>> {
+            $k::keys::dkg::part2(sec, r1)
+        }
+        fn api_dkg_part3(sec: &d2::SecretPackage<Self>, r1: &IdMap<Self, d1::Package<Self>>, r2: &IdMap<Self, d2::Package<Self>>) -> Result<(KeyPackage<Self>, PublicKeyPackage<Self>), Error<Self>> {
+            $k::keys::dkg::part3(sec, r1, r2)
+        }
+        fn api_commit(share: &SigningShare<Self>, rng: &mut TraceRng) -> (SigningNonces<Self>, SigningCommitments<Self>) {
+            $k::round1::commit(share, rng)
+        }
+        fn api_sign(pkg: &SigningPackage<Self>, nonces: &SigningNonces<Self>, kp: &KeyPackage<Self>) -> Result<SignatureShare<Self>, Error<Self>> {
+            $k::round2::sign(pkg, nonces, kp)
+        }
+        fn api_aggregate(pkg: &SigningPackage<Self>, shares: &IdMap<Self, SignatureShare<Self>>, pkp: &PublicKeyPackage<Self>) -> Result<Signature<Self>, Error<Self>> {
+            $k::aggregate(pkg, shares, pkp)
+        }
+        fn api_compute_refreshing_shares(pkp: PublicKeyPackage<Self>, ids: &[Identifier<Self>], rng: &mut TraceRng) -> Result<(Vec<SecretShare<Self>>, PublicKeyPackage<Self>), Error<Self>> {
+            $k::keys::refresh::compute_refreshing_shares(pkp, ids, rng)
+        }
+        fn api_refresh_share(share: SecretShare<Self>, cur: &KeyPackage<Self>) -> Result<KeyPackage<Self>, Error<Self>> {
+            $k::keys::refresh::refresh_share(share, cur)
+        }
+        fn api_refresh_dkg_part1(id: Identifier<Self>, n: u16, t: u16, rng: &mut TraceRng) -> Result<(d1::SecretPackage<Self>, d1::Package<Self>), Error<Self>> {
+            $k::keys::refresh::refresh_dkg_part1(id, n, t, rng)
+        }
+        fn api_refresh_dkg_part2(sec: d1::SecretPackage<Self>, r1: &IdMap<Self, d1::Package<Self>>) -> Result<(d2::SecretPackage<Self>, IdMap<Self, d2::Package<Self>>), Error<Self>> {
+            $k::keys::refresh::refresh_dkg_part2(sec, r1)
+        }
+        fn api_refresh_dkg_shares(sec: &d2::SecretPackage<Self>, r1: &IdMap<Self, d1::Package<Self>>, r2: &IdMap<Self, d2::Package<Self>>, old_pkp: PublicKeyPackage<Self>, old_kp: KeyPackage<Self>) -> Result<(KeyPackage<Self>, PublicKeyPackage<Self>), Error<Self>> {
+            $k::keys::refresh::refresh_dkg_shares(sec, r1, r2, old_pkp, old_kp)
+        }
+        fn api_repair_part1(helpers: &[Identifier<Self>], kp: &KeyPackage<Self>, rng: &mut TraceRng, participant: Identifier<Self>) -> Result<IdMap<Self, Delta<Self>>, Error<Self>> {
+            $k::keys::repairable::repair_share_part1::<Self, _>(helpers, kp, rng, participant)
+        }
+        fn api_repair_part2(deltas: &[Delta<Self>]) -> Sigma<Self> {
+            $k::keys::repairable::repair_share_part2(deltas)
+        }
+        fn api_repair_part3(sigmas: &[Sigma<Self>], id: Identifier<Self>, pkp: &PublicKeyPackage<Self>) -> Result<KeyPackage<Self>, Error<Self>> {
+            $k::keys::repairable::repair_share_part3(sigmas, id, pkp)
+        }
+    };
+}
 
 pub trait Suite: RandomizedCiphersuite {
     const NAME: &'static str;
@@ -27,6 +93,26 @@ pub trait Suite: RandomizedCiphersuite {
     fn indep_post_dkg(sum_key: El<Self>, share: Sc<Self>) -> (El<Self>, Sc<Self>) {
         (sum_key, share)
     }
+
+    // ---- the ciphersuite crate's own public entry points (what users call). Workloads go through these, not
+    // ---- straight to the frost-core generics, so that a defect in a crate-level wrapper is inside the observed system.
+    fn api_generate_with_dealer(n: u16, t: u16, ids: IdentifierList<Self>, rng: &mut TraceRng) -> Result<(IdMap<Self, SecretShare<Self>>, PublicKeyPackage<Self>), Error<Self>>;
+    fn api_split(key: &SigningKey<Self>, n: u16, t: u16, ids: IdentifierList<Self>, rng: &mut TraceRng) -> Result<(IdMap<Self, SecretShare<Self>>, PublicKeyPackage<Self>), Error<Self>>;
+    fn api_reconstruct(kps: &[KeyPackage<Self>]) -> Result<SigningKey<Self>, Error<Self>>;
+    fn api_dkg_part1(id: Identifier<Self>, n: u16, t: u16, rng: &mut TraceRng) -> Result<(d1::SecretPackage<Self>, d1::Package<Self>), Error<Self>>;
+    fn api_dkg_part2(sec: d1::SecretPackage<Self>, r1: &IdMap<Self, d1::Package<Self>>) -> Result<(d2::SecretPackage<Self>, IdMap<Self, d2::Package<Self>>), Error<Self>>;
+    fn api_dkg_part3(sec: &d2::SecretPackage<Self>, r1: &IdMap<Self, d1::Package<Self>>, r2: &IdMap<Self, d2::Package<Self>>) -> Result<(KeyPackage<Self>, PublicKeyPackage<Self>), Error<Self>>;
+    fn api_commit(share: &SigningShare<Self>, rng: &mut TraceRng) -> (SigningNonces<Self>, SigningCommitments<Self>);
+    fn api_sign(pkg: &SigningPackage<Self>, nonces: &SigningNonces<Self>, kp: &KeyPackage<Self>) -> Result<SignatureShare<Self>, Error<Self>>;
+    fn api_aggregate(pkg: &SigningPackage<Self>, shares: &IdMap<Self, SignatureShare<Self>>, pkp: &PublicKeyPackage<Self>) -> Result<Signature<Self>, Error<Self>>;
+    fn api_compute_refreshing_shares(pkp: PublicKeyPackage<Self>, ids: &[Identifier<Self>], rng: &mut TraceRng) -> Result<(Vec<SecretShare<Self>>, PublicKeyPackage<Self>), Error<Self>>;
+    fn api_refresh_share(share: SecretShare<Self>, cur: &KeyPackage<Self>) -> Result<KeyPackage<Self>, Error<Self>>;
+    fn api_refresh_dkg_part1(id: Identifier<Self>, n: u16, t: u16, rng: &mut TraceRng) -> Result<(d1::SecretPackage<Self>, d1::Package<Self>), Error<Self>>;
+    fn api_refresh_dkg_part2(sec: d1::SecretPackage<Self>, r1: &IdMap<Self, d1::Package<Self>>) -> Result<(d2::SecretPackage<Self>, IdMap<Self, d2::Package<Self>>), Error<Self>>;
+    fn api_refresh_dkg_shares(sec: &d2::SecretPackage<Self>, r1: &IdMap<Self, d1::Package<Self>>, r2: &IdMap<Self, d2::Package<Self>>, old_pkp: PublicKeyPackage<Self>, old_kp: KeyPackage<Self>) -> Result<(KeyPackage<Self>, PublicKeyPackage<Self>), Error<Self>>;
+    fn api_repair_part1(helpers: &[Identifier<Self>], kp: &KeyPackage<Self>, rng: &mut TraceRng, participant: Identifier<Self>) -> Result<IdMap<Self, Delta<Self>>, Error<Self>>;
+    fn api_repair_part2(deltas: &[Delta<Self>]) -> Sigma<Self>;
+    fn api_repair_part3(sigmas: &[Sigma<Self>], id: Identifier<Self>, pkp: &PublicKeyPackage<Self>) -> Result<KeyPackage<Self>, Error<Self>>;
 
     /// what a derived `Debug` on a secret newtype would print for this scalar
     fn scalar_debug(s: &Sc<Self>) -> String;
@@ -92,6 +178,7 @@ fn cat3(a: &[u8], b: &[u8], c: &[u8]) -> Vec<u8> {
 
 // ---------------------------------------------------------------- ed25519
 impl Suite for frost_ed25519::Ed25519Sha512 {
+    api_impl!(frost_ed25519);
     const NAME: &'static str = "ed25519";
     const LE: bool = true;
     const SCALAR_LEN: usize = 32;
@@ -118,6 +205,7 @@ impl Suite for frost_ed25519::Ed25519Sha512 {
 
 // ---------------------------------------------------------------- ristretto255
 impl Suite for frost_ristretto255::Ristretto255Sha512 {
+    api_impl!(frost_ristretto255);
     const NAME: &'static str = "ristretto255";
     const LE: bool = true;
     const SCALAR_LEN: usize = 32;
@@ -138,6 +226,7 @@ impl Suite for frost_ristretto255::Ristretto255Sha512 {
 
 // ---------------------------------------------------------------- ed448
 impl Suite for frost_ed448::Ed448Shake256 {
+    api_impl!(frost_ed448);
     const NAME: &'static str = "ed448";
     const LE: bool = true;
     const SCALAR_LEN: usize = 57;
@@ -161,6 +250,7 @@ impl Suite for frost_ed448::Ed448Shake256 {
 
 // ---------------------------------------------------------------- p256
 impl Suite for frost_p256::P256Sha256 {
+    api_impl!(frost_p256);
     const NAME: &'static str = "p256";
     const LE: bool = false;
     const SCALAR_LEN: usize = 32;
@@ -176,6 +266,7 @@ impl Suite for frost_p256::P256Sha256 {
 
 // ---------------------------------------------------------------- secp256k1
 impl Suite for frost_secp256k1::Secp256K1Sha256 {
+    api_impl!(frost_secp256k1);
     const NAME: &'static str = "secp256k1";
     const LE: bool = false;
     const SCALAR_LEN: usize = 32;
@@ -191,6 +282,7 @@ impl Suite for frost_secp256k1::Secp256K1Sha256 {
 
 // ---------------------------------------------------------------- secp256k1-tr
 impl Suite for frost_secp256k1_tr::Secp256K1Sha256TR {
+    api_impl!(frost_secp256k1_tr);
     const NAME: &'static str = "secp256k1-tr";
     const LE: bool = false;
     const SCALAR_LEN: usize = 32;
